@@ -12,6 +12,7 @@ import (
 	"verifharness/props/c05"
 	"verifharness/props/c06"
 	"verifharness/props/c07"
+	"verifharness/props/c08"
 	"verifharness/props/c12"
 	"verifharness/props/c15"
 	"verifharness/props/c16"
@@ -29,6 +30,7 @@ var table = map[string]func(lib.Opts){
 	"C05": c05.Run,
 	"C06": c06.Run,
 	"C07": c07.Run,
+	"C08": c08.Run,
 	"C12": c12.Run,
 	"C15": c15.Run,
 	"C16": c16.Run,
